@@ -141,6 +141,43 @@ func producers() []func() (produced, error) {
 			})
 		}
 	}
+	// Dial's documented pattern: the server sent frames in the same segment as its response, so a
+	// reader comes back; the application reads the first frames from it with ws.ReadFrame /
+	// wsutil.ReadServerData, keeps the payloads, and hands the reader back with ws.PutReader
+	for _, how := range []string{"ws.ReadFrame", "wsutil.ReadServerData", "wsutil.ReadServerMessage"} {
+		for _, n := range []int{5, 120, 1000} {
+			how, n := how, n
+			out = append(out, func() (produced, error) {
+				body := bytes.Repeat([]byte{'F'}, n)
+				d := ws.Dialer{}
+				conn := &hs.LazyConn{}
+				conn.Respond = func(req []byte) []byte {
+					head := "HTTP/1.1 101 Switching Protocols\r\nUpgrade: websocket\r\nConnection: Upgrade\r\nSec-WebSocket-Accept: " + hs.Accept(hs.KeyOf(req)) + "\r\n\r\n"
+					return append([]byte(head), refmodel.Frame{H: refmodel.Hdr{Fin: true, Op: 2}, Payload: body}.Wire()...)
+				}
+				br, _, err := d.Upgrade(conn, theURL)
+				if err != nil || br == nil {
+					return produced{}, fmt.Errorf("no reader returned: %v", err)
+				}
+				var kept []byte
+				switch how {
+				case "ws.ReadFrame":
+					f, e := ws.ReadFrame(br)
+					kept, err = f.Payload, e
+				case "wsutil.ReadServerData":
+					p, _, e := wsutil.ReadServerData(env.RW{Reader: br, Writer: env.NewDst()})
+					kept, err = p, e
+				default:
+					m, e := wsutil.ReadServerMessage(br, nil)
+					if e == nil && len(m) == 1 {
+						kept = m[0].Payload
+					}
+					err = e
+				}
+				return produced{name: fmt.Sprintf("%s(reader returned by Dialer.Upgrade)/len%d", how, n), expect: fmt.Sprintf("%q", body), live: func() string { return fmt.Sprintf("%q", string(kept)) }, br: br}, err
+			})
+		}
+	}
 	for _, trailing := range []int{0, 9} {
 		trailing := trailing
 		out = append(out, func() (produced, error) {
